@@ -97,6 +97,9 @@ func engineNLP(args []string) int {
 		if i%9 == 4 { // every command contains the leading words of the query
 			corpus = []string{"tie", "bigtie", "single"}[(i/9)%3]
 		}
+		if i%9 == 7 { // the usual action words occur in nearly every entry
+			corpus = "common"
+		}
 		c := getCorpus(corpus)
 		// corpus words
 		var cw []string
@@ -133,6 +136,14 @@ func engineNLP(args []string) int {
 			qs = append(append([]string{}, lead...), qs...)
 			for len(qs) < 12+r.Intn(3) && r.Intn(3) > 0 { // long enough for the term cap to bite
 				qs = append(qs, english[r.Intn(len(english))])
+			}
+		}
+		if corpus == "common" {
+			lead := [][]string{{"list"}, {"list", "programs"}, {"show"}, {"find", "list"}, {"copy", "show"}, {"list", "users"}}[r.Intn(6)]
+			if r.Intn(2) == 0 {
+				qs = lead // short queries made of the common words alone
+			} else {
+				qs = append(append([]string{}, lead...), qs...)
 			}
 		}
 		q := strings.Join(qs, " ")
